@@ -1796,6 +1796,11 @@ func runArch32(ctx *Ctx, replay []arch32Case) {
 				hostileViolate(ctx, "no-panic", "arch32:"+panicKey(ans), "built for GOARCH=386 (32-bit int) the decoder panics: "+ans, line)
 			}
 			ctx.Add(line, outcome, true, "")
+			if c.kind == "gen" && len(c.in) <= 1<<16 {
+				// the slice-level model with a 32-bit int and the 64-bit validate (what the library is since e776a13):
+				// same outcome class as the 386 build
+				ctx.Add("rdr.cls32w "+hexUp(c.in), outcome, true, "C02")
+			}
 			ctx.Res.Count("arch32." + c.kind + "." + outcome)
 			done = i + 1
 		}
